@@ -208,11 +208,11 @@ def BheSim():
     return ObjOf(f"{B_}:SingleUTube", soil=ObjOf("soil", k=Real, ugt=Real), b=ObjOf("borehole", H=Real), m_flow_borehole=Real, fluid=ObjOf("fluid", cp=Real), g_rb=Real)
 
 
-def GHEfull(times_shape):
+def GHEfull(times_shape, loads_np=False):
     return ObjOf(f"{G}:GHE", nbh=Int, B_spacing=Real, g_gkey=Int, radial_numerical=ObjOf("ghedesigner.radial_numerical_borehole:RadialNumericalBH", t_s=Real),
                  bhe=BheSim(), bhe_eq=ObjOf("x"),
                  hybrid_load=ObjOf("hl", load=ListOf(Real, np=True, minlen=3), hour=ListOf(Real, np=True, minlen=3)),
-                 sim_params=ObjOf("sim", start_month=Int, end_month=Int), hourly_extraction_ground_loads=ListOf(Real, length=8760),
+                 sim_params=ObjOf("sim", start_month=Int, end_month=Int), hourly_extraction_ground_loads=ListOf(Real, length=8760, np=loads_np),
                  times=times_shape, loading=NoneT(), hp_eft=ListOf(Real), dTb=ListOf(Real))
 
 
@@ -295,3 +295,8 @@ contract(f"{G}:GHE.simulate", dict(self=GHEfull(ListOf(Real, np=True)), method=C
 for _tn, _ts in (("fresh", FixedList([])), ("after-another-simulation", ListOf(Real, np=True))):
     contract(f"{G}:GHE.simulate", dict(self=GHEfull(_ts), method=Const(HOURLY)), name=f"{G}:GHE.simulate#hourly-body-{_tn}",
              requires=_sim_requires("hourly"), ensures=_sim_ensures(lambda E: _hourly_inputs(E)[1:]), returns=TupleOf(Real, Real)).applies = lambda env: False
+# the loads may also be handed over as a float array (the declared type is list; arrays work for horizons of at most one year, where nothing is repeated):
+# the simulation must leave the caller's array as it is (frame obligation)
+contract(f"{G}:GHE.simulate", dict(self=GHEfull(ListOf(Real, np=True), loads_np=True), method=Const(HOURLY)), name=f"{G}:GHE.simulate#hourly-body-array-loads",
+         requires=_sim_requires("hourly") + [("at-most-one-year (an array is not repeated by `*`)", lambda E: E.self.sim_params.end_month <= 12)],
+         ensures=_sim_ensures(lambda E: _hourly_inputs(E)[1:]), returns=TupleOf(Real, Real)).applies = lambda env: False
